@@ -385,10 +385,14 @@ int32_t pstm_montgomery_reduce(psPool_t *pool, pstm_int *a, const pstm_int *m,
     uint32 cSize;
 
     pa = m->used;
-    if (pa > a->alloc)
+    if (pa + 1 > a->alloc)
     {
-        /* Sanity test for bad numbers.  This will confirm no buffer overruns */
-        return PS_LIMIT_FAIL;
+        /* The result is copied back as pa + 1 digits: make sure they fit
+           (a small operand may have been allocated with fewer digits). */
+        if (pstm_grow(a, pa + 1) != PSTM_OKAY)
+        {
+            return PS_MEM_FAIL;
+        }
     }
 
     cSize = (2 * pa + 1) * sizeof(pstm_digit);
